@@ -231,6 +231,10 @@ impl Feig {
                     }
                     return Ok(vec![receipt_no]);
                 }
+                // Progress reports may precede the answer, as in every other exchange.
+                sequences::PartialReversalResponse::IntermediateStatusInformation(_) => (),
+                sequences::PartialReversalResponse::PrintLine(data) => log::info!("{}", data.text),
+                sequences::PartialReversalResponse::PrintTextBlock(data) => log::info!("{data:#?}"),
                 _ => {
                     // We leave the exchange unfinished: its remaining packets must
                     // not be read as the replies to the next command.
